@@ -218,6 +218,71 @@ def build(tier):
                ensures=["cnn_inv(self)", "cnn_layer_effect(self, old(self), result, 1)"], replay="c03:walk")
     P.trusted += ["MutableKernelSizes.calc_max_kernel_sizes returns one integer per layer (conv arithmetic not under contract: the kernel-fits-input "
                   "part of 'valid architecture' is only exercised by the native walks)"]
+    # ------------------------------------------------------------------ EvolvableResNet: channel mutations keep the width a Python int inside
+    # its bounds (the constructor asserts isinstance(channel_size, int): a numpy integer makes the module un-rebuildable from its own description)
+    class NpInt:
+        """a numpy integer scalar (np.random.choice(...)[0]): arithmetic with Python ints yields numpy integers again"""
+
+        def __init__(self, v):
+            self.v = z3ify(v)
+
+        def isinstance(self, ex, st, names):
+            return any(n in ("integer", "int64", "number", "generic") for n in names)
+
+        def to_int(self, ex, st):
+            return self.v
+
+        def binop(self, ex, st, op, other, swapped):
+            import ast as _ast
+            o = other.v if isinstance(other, NpInt) else z3ify(other)
+            a, b = (o, self.v) if swapped else (self.v, o)
+            r = a + b if isinstance(op, _ast.Add) else a - b if isinstance(op, _ast.Sub) else a * b if isinstance(op, _ast.Mult) else None
+            if r is None:
+                raise Undecided("numpy integer op")
+            return NpInt(r)
+
+        def iop(self, ex, st, op, other):
+            return self.binop(ex, st, op, other, False)
+
+        def compare(self, ex, st, op, other, swapped):
+            import ast as _ast
+            o = other.v if isinstance(other, NpInt) else z3ify(other)
+            a, b = (o, self.v) if swapped else (self.v, o)
+            return {_ast.Lt: a < b, _ast.LtE: a <= b, _ast.Gt: a > b, _ast.GtE: a >= b, _ast.Eq: a == b, _ast.NotEq: a != b}[type(op)]
+
+    def np_choice_np(ex, st, args, kwargs):
+        r = np_choice(ex, st, args, kwargs)
+        return [NpInt(r[0])]
+    RES = MOD + "resnet.EvolvableResNet"
+    P.shape("ResNet", RES, {"channel_size": "int", "min_channel_size": "int", "max_channel_size": "int"})
+    npval = lambda x: x.v if isinstance(x, NpInt) else z3ify(x)
+    P.specns["res_inv"] = lambda o: z3.And(npval(o.fields["min_channel_size"]) >= 1, npval(o.fields["min_channel_size"]) <= npval(o.fields["channel_size"]),
+                                           npval(o.fields["channel_size"]) <= npval(o.fields["max_channel_size"]))
+    P.specns["py_int"] = lambda v: z3.BoolVal(isinstance(v, int) or (isinstance(v, z3.ArithRef) and v.sort() == z3.IntSort()))
+    for meth in ("add_channel", "remove_channel"):
+        for variant, argp in (("default-draw", (lambda ex, st, l: None)), ("given", "int")):
+            P.contract(f"{RES}.{meth}", variant=variant, params={"self": "obj:ResNet", "numb_new_channels": argp},
+                       requires=["res_inv(self)"] + (["numb_new_channels >= 1"] if variant == "given" else []), modifies=["self.channel_size"],
+                       ensures=["res_inv(self)", "py_int(self.channel_size)"], replay={"adapter": "demos:run", "payload": {"name": "C04_demo_6"}},
+                       setup=None)
+    P.lib["numpy.random.choice"] = lambda ex, st, a, k: (np_choice_np(ex, st, a, k) if (getattr(ex.top_frame, "qual", "") or "").startswith(RES) else np_choice(ex, st, a, k))
+    # ------------------------------------------------------------------ EvolvableMultiInput.change_activation: the constructor description
+    # (init_dict reads self.output_activation) names the output activation that is really installed
+    MI = MOD + "multi_input.EvolvableMultiInput"
+
+    def mi_self(ex, st, label):
+        o = Obj(MI, label="self")
+        fnet = Obj("model.ModuleDict", label="feature_net")
+        fnet.fields["modules"] = Fn(model=lambda ex, st, a, k: {}, name="modules")
+        o.fields.update(dict(_activation=None, output_activation=None, output=("activation", None), feature_net=fnet))
+        return o
+    P.lib[MOD + "multi_input.get_activation"] = lambda ex, st, a, k: ("activation", a[0])
+    P.lib["agilerl.utils.evolvable_networks.get_activation"] = lambda ex, st, a, k: ("activation", a[0])
+    P.specns["described"] = lambda o: z3.BoolVal(o.fields["output"] == ("activation", o.fields["output_activation"]))
+    for outp in (True, False):
+        P.contract(MI + ".change_activation", variant=f"output-{outp}", params={"self": mi_self, "activation": (lambda ex, st, l: "ELU"), "output": (lambda ex, st, l, outp=outp: outp)},
+                   requires=[], frame_fields=False, ensures=["described(self)", "self._activation == 'ELU'"],
+                   replay={"adapter": "demos:run", "payload": {"name": "C07_demo_3"}})
     P.native.append(dict(name="walk", adapter="c03:walk", thorough_only=True, payload={"mode": "search"},
                          bound="MLP, CNN, LSTM, SimBa, MultiInput(vector_mlp), QNetwork: all mutation words up to length 3 plus seeded walks of 40 steps; "
                                "forward output finite with declared shape for batch 1..3; strict reload from init_dict; clone reproduces outputs"))
